@@ -140,7 +140,9 @@ def install(eng, w):
     def external(eng, name, path):
         if w.external_fails is not None and eng.branch(w.external_fails):
             raise PyRaise(make_exc("RuntimeError", "casadi: cannot load shared library"))
-        return FunctionStub("external:" + str(name), CATEGORIES if name == "variable_metadata" else None)
+        fs = FunctionStub("external:" + str(name), CATEGORIES if name == "variable_metadata" else None)
+        fs.library = path
+        return fs
 
     casadi = ModuleStub("casadi", {
         "MX": mx_cls, "Function": fn_cls, "external": stub(external), "reshape": stub(reshape),
